@@ -16,6 +16,7 @@ def main(tier):
     models.cooling_formulas(P, rep)
     models.smooth_blend(P, rep)
     rep.attempt(models.parameter_single_source, P, rep)
+    rep.attempt(models.polynomial_tables, P, rep)          # tian2019: one table per polynomial
     rep.attempt(models.mckenzie_formula, P, rep)           # the slab plate model is McKenzie's series
     rep.attempt(footprint.angle_interpolation, P, rep)     # the Gaussian plume's ellipse orientation between two cross sections
     rep.attempt(footprint.ellipse_fraction, P, rep)
